@@ -60,6 +60,7 @@ struct VmWorld : HookSink {
   std::set<Loc> enabled;
   bool stepping = false;
   bool since_reset_clean = true;  // no instruction executed since construction / reset
+  int resets_done = 0;
   int stopped_site = -1;          // pc of the site the machine stopped at and has not left since
   // monitor used while the library runs VM::execute()
   bool mon_on = false;
@@ -477,6 +478,8 @@ struct VmWorld : HookSink {
   void check_position(const char *when) {
     int ip = VerifAccess::ip(*vm);
     if (t >= G.len()) return;
+    if (resets_done > 0 && (ip != G.ip[t] || exec_state_hash(*vm) != G.h[t]))
+      ctx.check(false, "C17", "history_after_reset_as_fresh", std::string(when) + ": after " + std::to_string(resets_done) + " reset(s) the machine is not where a fresh machine is after the same " + std::to_string(t) + " instructions");
     if (ip != G.ip[t]) {
       ctx.check(false, "C05", "same_instruction_path", std::string(when) + ": ip " + std::to_string(ip) + ", uninterrupted run is at " + std::to_string(G.ip[t]) + " (step " + std::to_string(t) + ")");
       ctx.abort_run();  // the model has lost the machine
@@ -683,6 +686,7 @@ struct VmWorld : HookSink {
     if (!enabled.empty()) ctx.stats.inc("probe_reset_with_breakpoints");
     if (stepping) ctx.stats.inc("probe_reset_with_stepping");
     vm->reset();
+    resets_done++;
     t = 0; enabled.clear(); stepping = false; since_reset_clean = true; stopped_site = -1;
     ctx.ev("reset");
     check_boundary(*vm, "after reset()");
@@ -865,6 +869,7 @@ Plan gen_vm_plan(const std::string &prop, Rng &rng, long long sub, const std::st
   gp.init_vars = rng.chance(7, 10);
   gp.stop_in_callee = rng.chance(1, 8);
   gp.jump_into_loop = rng.chance(1, 3) ? 35 : 0;
+  gp.locality = rng.chance(1, 2) ? (int)rng.range(20, 60) : 0;
   unsigned macros = 0;
   if (rng.chance(1, 3)) macros = (unsigned)rng.below(16);
   gp.macros = macros;
